@@ -58,9 +58,10 @@ def run(ctx):
             ctx.tlc_mc("MC_Record.tla", "Record_thorough.cfg", timeout=2400)
             ctx.tlc_mc("MC_Record.tla", "Record_thorough2.cfg", timeout=1800)
         # anti-vacuity: each deviation of the mechanism violates the property in the model
-        # (quick: one of the three, chosen by the seed; thorough: all)
-        devs = ("notransitive", "copyshare", "nodep")
-        for dev in (devs if ctx.thorough() else devs[ctx.seed % 3:ctx.seed % 3 + 1]):
+        # (quick: one of the two single-record ones, chosen by the seed; thorough: all three)
+        # (copyshare needs two records and depth 5: thorough only)
+        devs = ("notransitive", "nodep", "copyshare")
+        for dev in (devs if ctx.thorough() else devs[ctx.seed % 2:ctx.seed % 2 + 1]):
             ctx.tlc_mc("MC_Record.tla", "Record_dev_%s.cfg" % dev, timeout=600,
                        expect_violation="violated", count=False)
     # 2. generation: TLC simulation produces operation sequences (2 records, 2 observers)
@@ -79,7 +80,7 @@ def run(ctx):
     # 3. conformance: real SuRecord
     drv = ctx.go_build("record")
     trace = ctx.work + "/record.ndjson"
-    nwalks = 2500 if ctx.thorough() else 350
+    nwalks = 2500 if ctx.thorough() else 300
     rc, out, summ = ctx.driver(drv, [trace, bfile, nwalks, 40], timeout=600)
     if rc != 0:
         raise Infra("record driver rc=%d\n%s" % (rc, out[-3000:]))
